@@ -512,6 +512,45 @@ pub fn accuracy(args: &[String]) {
         let why = if e1 > 1e-11 && e1 / e2 < 10.0 { format!("halving the step reduces the error only by {:.2} ({:.3e} -> {:.3e}); expected about 16", e1 / e2, e1, e2) } else { String::new() };
         row("ac", 100000 + k, "rk4-order", *kind, Method::RK4, "c01-rk4-order", &why, &format!("\"e40\":{},\"e80\":{},", jnum(e1), jnum(e2)));
     }
+    // fast rotations (|y'| = w |y| with w up to 300): the error scale must follow |y|, not the size of the derivative;
+    // a neutrally stable flow, so accepted local errors are not damped away
+    {
+        let mut k = 0;
+        for method in ADAPTIVE {
+            for w in [30.0f64, 300.0] { for rtol in [1e-4, 1e-6, 1e-8] { for back in [false, true] {
+                if matches!(method, Method::BDF | Method::RK23) && (w > 100.0 || rtol < 1e-7) { continue; } // tens of thousands of steps
+                let p = Rot { w };
+                let xend = if back { -2.0 } else { 2.0 };
+                let atol = rtol * 1e-3;
+                let o = Options::builder().method(method).rtol(rtol).atol(atol).build();
+                let mut why = String::new();
+                let mut extra = String::new();
+                match catch_unwind(AssertUnwindSafe(|| solve_ivp(&p, 0.0, xend, &[1.0, 0.0], o))) {
+                    Ok(Ok(s)) => {
+                        let nacc = s.naccpt.max(1) as f64;
+                        let mut rmax = 0.0f64;
+                        for (t, y) in s.t.iter().zip(s.y.iter()) {
+                            let ex = [(w * t).cos(), -(w * t).sin()];
+                            for i in 0..2 { let b = 10.0 * nacc * (atol + rtol * ex[i].abs().max(0.1)); rmax = rmax.max((y[i] - ex[i]).abs() / b); }
+                        }
+                        extra = format!("\"w\":{},\"rtol\":{},\"naccpt\":{},\"ratio\":{},", w, jnum(rtol), s.naccpt, jnum(rmax));
+                        if s.status != Status::Success { why = format!("status {:?}", s.status); }
+                        else if rmax > 0.5 { why = format!("rotation with angular velocity {}: error is {:.2} times 10 * naccpt * (atol + rtol |y|) (the unchanged solvers stay below 0.12)", w, rmax); }
+                    }
+                    _ => why = "run fails".into(),
+                }
+                row("ac", 200000 + k, "fast-rotation", Kind::Harmonic, method, "c01-accuracy", &why, &extra);
+                k += 1;
+            } } }
+        }
+    }
+}
+
+/// y0' = w y1, y1' = -w y0: rotation with angular velocity w, solution (cos wt, -sin wt)
+struct Rot { w: f64 }
+impl IVP for Rot {
+    fn ode(&self, _x: f64, y: &[f64], d: &mut [f64]) { d[0] = self.w * y[1]; d[1] = -self.w * y[0]; }
+    fn jac(&self, _x: f64, _y: &[f64], j: &mut Matrix) { j[(0, 0)] = 0.0; j[(0, 1)] = self.w; j[(1, 0)] = -self.w; j[(1, 1)] = 0.0; }
 }
 
 // ------------------------------------------------------------------------------------------------------------ C14
